@@ -212,6 +212,13 @@ where
         self.active.iter().map(|(id, _)| id.clone()).collect()
     }
 
+    /// Verification hook: id (stream key) of one of the datagrams that are
+    /// currently being reconstructed (no allocation, no copy).
+    #[cfg(feature = "verif-hooks")]
+    pub fn verif_first_active_id(&self) -> Option<&IpFragId<CustomChannelId>> {
+        self.active.iter().next().map(|(id, _)| id)
+    }
+
     /// Returns a buffer to the pool so it can be re-used.
     pub fn return_buf(&mut self, buf: IpDefragPayloadVec) {
         self.finished_data_bufs.push(buf.payload);
